@@ -80,7 +80,7 @@ Lemma parse_exp : forall b first, wf_pos first = true ->
 Proof.
   intros b [r c] H. unfold wf_pos in H. cbn [fst snd] in H. apply andb_prop in H. destruct H as [Hr Hc].
   apply N.ltb_lt in Hr, Hc.
-  destruct (refuted_ptgexp show_f64 (env b) {| be_sheets := []; be_names := [] |} Hr Hc) as [H _].
+  destruct (refuted_ptgexp show_f64 (env b) {| be_sheets := []; be_names := []; be_base := None |} Hr Hc) as [H _].
   exact H.
 Qed.
 
